@@ -2,6 +2,6 @@ CONSTANTS
   W = 6
   MaxRejects = 2
 SPECIFICATION Spec
-INVARIANTS TypeOK ResultInRange NoResultUnlessDone UniformAtEveryBound FibreFormulaSound PowerOfTwoNeverRejects BoundToProofs StateBound
+INVARIANTS TypeOK ResultInRange NoResultUnlessDone UniformAtEveryBound FibreFormulaSound PowerOfTwoNeverRejects BoundToProofs AboveHalfOnePreimage StateBound
 PROPERTIES RejectIsFresh ShortReadIsStutterOnOutcome
 CHECK_DEADLOCK FALSE
